@@ -17,6 +17,10 @@ FACE_ASSUMPTIONS = [
     "(compiler-evaluated through the verif hook; buffer size = length of the first Read issued by the running readTlvStream) into coq/Face/GenConsts.v",
     "Go's built-in copy is overlap-safe (language specification), so the receive buffer is modelled by tlvOff and the unread bytes",
     "io.Reader contract: a Read into a non-empty slice returns 0..len(p) bytes; a Read into an empty slice returns (0, nil) (net.Conn behaviour)",
+    "the models work on byte VALUES: that nothing handleIncomingFrame queues or stores aliases the caller's receive buffer (the buffer may be "
+    "reused as soon as the call returns) is an explicit obligation, checked on every run by handing all frames over in ONE reused buffer "
+    "(a datagram buffer overwritten after every call, and the real readTlvStream buffer) and comparing what the recording threads hold at the end of the history",
+    "StreamFace.Send is atomic per packet (obligation of theorem send_atomic_delivers), checked by concurrent Send calls over a gated pipe",
     "extraction: ExtrOcamlBasic only; N, Z, positive, nat stay Coq datatypes",
 ]
 FACE_TRUSTED = ["Coq kernel 8.16.1", "Coq extraction + OCaml 4.13.1", "runner/Face/driver.ml", "harness/facelp generators and scripted reader",
@@ -189,7 +193,7 @@ def lp_trace(R, test_exe, runner, nperm, nadv, sweep, corpus_dirs, tag, timeout=
         try:
             txt = open(trace, errors="replace").read()
             i = txt.rfind("LPCASE ")
-            last = txt[i:i + 6000]
+            last = txt[i:i + 60000].replace("\nPRE ", "\nRECV ")
         except OSError:
             pass
         R.oracle_failure("lp-harness-crash", "the Go link-service harness aborted (panic outside recover / fatal error such as out of memory)",
